@@ -7,6 +7,8 @@ package main
 
 import (
 	"context"
+	"io"
+	"regexp"
 	"encoding/json"
 	"fmt"
 	"os"
@@ -20,17 +22,33 @@ import (
 
 const childMemLimit = 6 << 30
 
+var lockFatalRe = regexp.MustCompile(`fatal error: sync: [^\n]*|fatal error: all goroutines are asleep[^\n]*|fatal error: concurrent map [^\n]*|WARNING: DATA RACE`)
+
 func limitMemory() {
 	var rl syscall.Rlimit
 	rl.Cur, rl.Max = childMemLimit, childMemLimit
 	_ = syscall.Setrlimit(syscall.RLIMIT_AS, &rl)
 }
 
+// tailBuffer keeps the last bytes written to it (the end of a crashing child's output).
+type tailBuffer struct{ b []byte }
+
+func (t *tailBuffer) Write(p []byte) (int, error) {
+	t.b = append(t.b, p...)
+	if len(t.b) > 1<<16 {
+		t.b = t.b[len(t.b)-(1<<15):]
+	}
+	return len(p), nil
+}
+
+var lastChildStderr tailBuffer
+
 func runChild(args []string, timeout time.Duration) (int, bool) {
 	ctx, cancel := context.WithTimeout(context.Background(), timeout)
 	defer cancel()
 	cmd := exec.CommandContext(ctx, os.Args[0], args...)
-	cmd.Stdout, cmd.Stderr = os.Stdout, os.Stderr
+	lastChildStderr.b = nil
+	cmd.Stdout, cmd.Stderr = os.Stdout, io.MultiWriter(os.Stderr, &lastChildStderr)
 	err := cmd.Run()
 	if ctx.Err() != nil {
 		return -1, true
@@ -85,6 +103,23 @@ func supervise(prop, replayDir string, seed int64) int {
 			if to2 || (c2 != 0 && c2 != 1) {
 				culprit = true
 				skip = append(skip, fmt.Sprint(idx))
+				if prop == "C15" && (to2 || lockFatalRe.Match(lastChildStderr.b)) {
+					// the Go runtime ended the process over a misuse of the terminal lock (or the case never ends)
+					_ = os.MkdirAll(replayDir, 0o755)
+					path := filepath.Join(replayDir, fmt.Sprintf("C15-%d-crash%d.json", seed, idx))
+					var c Case
+					_ = json.Unmarshal(b, &c)
+					what := "the process was ended by the Go runtime: " + string(lockFatalRe.Find(lastChildStderr.b))
+					if to2 {
+						what = "no termination within 20 s (deadlock or wedge)"
+					}
+					rep := map[string]any{"property": "C15", "kind": "failing-input", "case": c,
+						"finding": finding{Kind: "panic", Prop: "C15", Clause: "process", Detail: what}, "seed": seed}
+					jb, _ := json.MarshalIndent(rep, "", " ")
+					_ = os.WriteFile(path, jb, 0o644)
+					fmt.Printf("VIOLATION property=C15 replay=%s\n  %s\n", path, what)
+					crashViolations++
+				}
 				if prop == "C01" {
 					_ = os.MkdirAll(replayDir, 0o755)
 					path := filepath.Join(replayDir, fmt.Sprintf("C01-%d-crash%d.json", seed, idx))
@@ -103,6 +138,9 @@ func supervise(prop, replayDir string, seed int64) int {
 				}
 			}
 		}
+		if crashViolations >= 3 {
+			return 1 // enough failing inputs; every further attempt would die on yet another case
+		}
 		if !culprit {
 			// not reproducible alone: skip them all and go on
 			for _, f := range files {
@@ -113,6 +151,9 @@ func supervise(prop, replayDir string, seed int64) int {
 		}
 	}
 	fmt.Fprintln(os.Stderr, "harness: too many abnormal child exits")
+	if crashViolations > 0 {
+		return 1
+	}
 	return 2
 }
 
